@@ -56,6 +56,7 @@ structure Out (J : Type) where
   kind : Kind
   req : Bytes
   msg : Triple J
+deriving DecidableEq
 
 /-- `(ERRORPREFIX + action, specifier, [cls, text, {}])` -/
 def errorReply {J : Type} (T : Tables) (L : Lib J) (action : Bytes) (spec : Option Bytes) (cls : Bytes) : Triple J :=
